@@ -17,7 +17,7 @@ CMP = ("core::cmp::PartialOrd::ge", "core::cmp::PartialOrd::gt", "core::cmp::Par
        "core::cmp::PartialEq::eq", "core::cmp::PartialEq::ne")
 
 BUFFER_TY = re.compile(
-    r"^&mut (alloc::string::String|alloc::vec::Vec<u8>|[A-Z][A-Za-z0-9]*|std::io::stdio::(StdoutLock|StderrLock)<'_>|"
+    r"^&mut (alloc::string::String|alloc::vec::Vec<u8>|[A-Z][A-Za-z0-9]*|std::io::stdio::(StdoutLock|StderrLock)<'_>|std::io::stdio::(Stdout|Stderr)|std::io::(Stdout|Stderr)|"
     r"core::fmt::Formatter<'_>|std::io::buffered::bufwriter::BufWriter<.*>|dyn std::io::Write|dyn core::fmt::Write)$")
 LOCAL_SCRATCH_OK = True
 
